@@ -7,6 +7,8 @@ import (
 	"fmt"
 	"math/rand"
 	"net"
+	"os"
+	"path/filepath"
 	"regexp"
 	"sort"
 	"strconv"
@@ -122,6 +124,9 @@ func genUpdater(rng *rand.Rand) input {
 			in.UBackends = append(in.UBackends, ubackend{Name: "oauth2proxy", Paths: []upath{{Host: h, Path: prefix, Ing: -1}}})
 		}
 	}
+	if rng.Intn(5) == 0 {
+		in.PassHosts = []string{hosts[rng.Intn(2)]}
+	}
 	// hosts first (any order), then backends (any order): what the converter does, where
 	// the order inside each group is the iteration order of a Go map
 	hs := map[string]bool{}
@@ -236,6 +241,7 @@ type probeObs struct {
 }
 
 type ubackObs struct {
+	idmap  [][2]string // the real idpath maps of the backend: key, path id
 	cors   []corsObs
 	xrules []c1819.AuthRule
 	probes []probeObs
@@ -406,6 +412,12 @@ func runUpdater(in input, scratch string) *updObs {
 			}
 		}
 	}
+	// ssl-passthrough hosts: their non root paths are http paths like the others
+	for _, h := range in.PassHosts {
+		if host := hc.Hosts().FindHost(h); host != nil {
+			host.SetSSLPassthrough(true)
+		}
+	}
 	// host wide annotations: every ingress of the host adds its duo keys on the same link,
 	// in the order of the ingresses (the converter sorts them)
 	for host, ings := range hostIngs {
@@ -538,6 +550,19 @@ func runUpdater(in input, scratch string) *updObs {
 			bo.Rules = projRules(bo.raw)
 		}
 		bo.xrules = xfilter(bo.raw)
+		files, _ := filepath.Glob(filepath.Join(p.Dir, "etc", "haproxy", "maps", "_back_"+bo.ID+"_idpath*.map"))
+		sort.Strings(files)
+		for _, f := range files {
+			data, err := os.ReadFile(f)
+			if err != nil {
+				continue
+			}
+			for _, ln := range strings.Split(string(data), "\n") {
+				if fld := strings.Fields(ln); len(fld) == 2 && !strings.HasPrefix(fld[0], "#") {
+					bo.idmap = append(bo.idmap, [2]string{fld[0], fld[1]})
+				}
+			}
+		}
 		for _, bp := range bo.be.Paths {
 			c := bp.Cors
 			bo.cors = append(bo.cors, corsObs{ID: bp.ID, On: c.Enabled && len(c.AllowOrigin) > 0,
@@ -1290,6 +1315,14 @@ func coqCase(id int, in input, uo *updObs) string {
 	for _, p := range uo.fprobes {
 		probes = append(probes, c.probe(0, p))
 	}
+	var idmaps []string
+	for _, bo := range uo.Backs {
+		var es []string
+		for _, e := range bo.idmap {
+			es = append(es, hx.Tuple(hx.N(c.key(e[0])), hx.N(pathNum(e[1]))))
+		}
+		idmaps = append(idmaps, hx.Tuple(hx.N(c.backIdx[bo.ID]), hx.List(es)))
+	}
 	var tags []int
 	for t := range c.extras {
 		tags = append(tags, t)
@@ -1298,9 +1331,9 @@ func coqCase(id int, in input, uo *updObs) string {
 	for _, t := range tags {
 		extras = append(extras, hx.Tuple(hx.N(t), c.extras[t]))
 	}
-	return fmt.Sprintf("{| uid := %s; ulua := %s; ustart := %s; uend := %s;\n   ucalls := %s;\n   uhosts := %s;\n   ubacks := %s;\n   ubinds := %s; uhorder := %s;\n   ufront := %s;\n   urules := %s;\n   uextras := %s;\n   uxbacks := %s;\n   uxfront := %s;\n   uprobes := %s |}",
+	return fmt.Sprintf("{| uid := %s; ulua := %s; ustart := %s; uend := %s;\n   ucalls := %s;\n   uhosts := %s;\n   ubacks := %s;\n   ubinds := %s; uhorder := %s;\n   ufront := %s;\n   urules := %s;\n   uextras := %s;\n   uxbacks := %s;\n   uxfront := %s;\n   uprobes := %s;\n   uidmaps := %s |}",
 		hx.N(id), hx.Bool(lua), hx.Z(int64(start)), hx.Z(int64(end)), hx.List(calls), hx.List(hostsObs), hx.List(backsObs),
-		hx.List(binds), hx.List(horder), hx.List(front), hx.List(rulesObs), hx.List(extras), hx.List(xbacks), xfront, hx.List(probes))
+		hx.List(binds), hx.List(horder), hx.List(front), hx.List(rulesObs), hx.List(extras), hx.List(xbacks), xfront, hx.List(probes), hx.List(idmaps))
 }
 
 var _ = json.Marshal
